@@ -115,8 +115,16 @@ func (s Strategy) String() string {
 	return [...]string{"run-to-block", "random", "pct"}[s]
 }
 
+type stepEvent struct {
+	at uint64
+	fn func()
+}
+
 type Sim struct {
 	Ch *Choices
+
+	schedSteps uint64
+	stepEvents []stepEvent
 
 	now    int64
 	seq    uint64
@@ -752,12 +760,44 @@ func (s *Sim) SetPCT(d int, horizon int) {
 	s.armPreempt()
 }
 
+// AfterSteps runs fn on the simulator after n further scheduling steps, or at
+// the next quiescent point if that comes first: an arrival aimed at a window
+// that has no width on the clock (between two statements of different tasks at
+// one instant).
+func (s *Sim) AfterSteps(n int, fn func()) {
+	s.stepEvents = append(s.stepEvents, stepEvent{s.schedSteps + uint64(n), fn})
+}
+
+func (s *Sim) fireStepEvents(all bool) bool {
+	if len(s.stepEvents) == 0 {
+		return false
+	}
+	fired := false
+	var keep []stepEvent
+	evs := s.stepEvents
+	s.stepEvents = nil
+	for _, e := range evs {
+		if all || e.at <= s.schedSteps {
+			e.fn()
+			fired = true
+		} else {
+			keep = append(keep, e)
+		}
+	}
+	s.stepEvents = append(keep, s.stepEvents...)
+	if fired {
+		s.MarkDirty()
+	}
+	return fired
+}
+
 // step runs one scheduling step. It returns false when the system is quiescent.
 func (s *Sim) step() bool {
 	c := s.candidates()
 	if len(c) == 0 {
 		return false
 	}
+	s.schedSteps++
 	t := s.pick(c)
 	if t != s.last {
 		s.Switches++
@@ -810,6 +850,7 @@ func (s *Sim) RunUntil(pred func() bool, deadline int64) bool {
 			return false
 		}
 		if s.step() {
+			s.fireStepEvents(false)
 			if s.StepCost > 0 {
 				s.now += s.StepCost
 				s.instantSteps = 0 // time passes with every step: nothing can spin within one instant
@@ -852,6 +893,9 @@ func (s *Sim) RunUntil(pred func() bool, deadline int64) bool {
 			}
 		} else {
 			s.spinQuantum = 0 // quiescent: nobody spins any more
+			if s.fireStepEvents(true) {
+				continue
+			}
 		}
 		if pred != nil && pred() {
 			return true
